@@ -53,7 +53,7 @@ Fixpoint is_prefix (a b : list resp) : bool :=
   end.
 
 Definition has_err_action (l : list action) : bool :=
-  existsb (fun a => match a with IdleCb _ true => true | _ => false end) l.
+  existsb (fun a => match a with IdleCb _ true true => true | _ => false end) l.
 
 (* Hist: callbacks (no Drain: the send loop runs concurrently), then Dispose.
    obs_sent = what the fake stream received; obs_result 1 = the call returned
